@@ -62,5 +62,13 @@ package vgirpc
 //@   at call (*CallContext).drainLogs after (*Server).serveUnary$1 assert [afterhandler] arg0 == callCtx
 //@   at call writeLogBatch assert [errlogs] callErr != nil && 0 <= rangeindex + 1 && rangeindex + 1 < len(logs) && arg1 == info.ResultSchema && arg4 == req.RequestID
 //@   at call writeErrorBatch assert [oneexception] arg2 == callErr && callErr != nil && arg1 == info.ResultSchema && arg4 == req.RequestID
+//@   # the outcome reported is the handler's own: the error the recovering literal left behind (the
+//@   # handler's error, or the RuntimeError made of its panic) — nothing else turns a returned value
+//@   # into an exception or an error into a value
+//@   pathvar handlerSaid error
+//@   at call (*Server).serveUnary$1 setflag handlerSaid callErr
+//@   at call writeErrorBatch assert [handlersown] arg2 == handlerSaid && handlerSaid != nil
+//@   at call WriteVoidResponse assert [voidsown] handlerSaid == nil
+//@   at call WriteUnaryResponse assert [valuesown] handlerSaid == nil
 //@   at call WriteVoidResponse assert [voidok] callErr == nil && info.ResultType == nil && arg1 == logs && arg3 == req.RequestID
 //@   at call WriteUnaryResponse assert [valueok] callErr == nil && arg1 == info.ResultSchema && arg2 == logs && arg5 == req.RequestID
